@@ -34,11 +34,22 @@ mod c01 {
         }
     }
     /// expected cell for a value of `n` bytes whose big-endian image is `x`: [int n][n bytes]
-    fn spec_cell(x: u64, n: usize) -> ([u8; 12], usize) {
-        let mut c = [0u8; 12];
+    fn spec_cell(x: u64, n: usize) -> ([u8; 20], usize) {
+        let mut c = [0u8; 20];
         be(n as u64, 4, &mut c[0..4]);
         be(x, n, &mut c[4..4 + n]);
         (c, 4 + n)
+    }
+    /// ... whose wire image is given byte by byte (uuid: 16 raw bytes)
+    fn spec_cell_bytes(img: [u8; 16]) -> ([u8; 20], usize) {
+        let mut c = [0u8; 20];
+        be(16, 4, &mut c[0..4]);
+        let mut i = 0;
+        while i < 16 {
+            c[4 + i] = img[i];
+            i += 1;
+        }
+        (c, 20)
     }
 
     /// Generic obligation for one fixed-width carrier:
@@ -50,8 +61,17 @@ mod c01 {
     where
         T: SerializeValue + for<'f, 'm> DeserializeValue<'f, 'm>,
     {
+        check_cell::<T>(v, spec_cell(image, width), accepted, accepted, same)
+    }
+
+    /// `ser_ok`: column types the carrier may be bound to; `de_ok`: column types it may be read from (documentation table)
+    fn check_cell<T>(v: T, expect: ([u8; 20], usize), ser_ok: &[NativeType], de_ok: &[NativeType], same: fn(&T, &T) -> bool)
+    where
+        T: SerializeValue + for<'f, 'm> DeserializeValue<'f, 'm>,
+    {
         let nt = any_native();
-        let documented = accepted.contains(&nt);
+        let documented = ser_ok.contains(&nt);
+        let readable = de_ok.contains(&nt);
         // ColumnType is a recursive enum: CBMC unwinds its drop glue to the unwinding bound at every drop. None of the
         // values below owns heap data, so they are deliberately never dropped (ManuallyDrop / forget).
         let typ = std::mem::ManuallyDrop::new(ColumnType::Native(nt));
@@ -61,17 +81,17 @@ mod c01 {
         let r = std::mem::ManuallyDrop::new(v.serialize(typ, CellWriter::new(&mut buf)));
         if documented {
             assert!(r.is_ok(), "documented pair accepted");
-            let (cell, n) = spec_cell(image, width);
+            let (cell, n) = expect;
             assert!(buf.len() == 1 + n && buf[0] == prefix, "earlier bytes untouched, exactly one cell appended");
             let mut i = 0;
-            while i < 12 {
+            while i < 20 {
                 if i < n {
                     assert!(buf[1 + i] == cell[i], "bytes == CQL v4 encoding");
                 }
                 i += 1;
             }
             let tc = std::mem::ManuallyDrop::new(<T as DeserializeValue>::type_check(typ));
-            assert!(tc.is_ok());
+            assert!(tc.is_ok() == readable);
             let back = std::mem::ManuallyDrop::new(<T as DeserializeValue>::deserialize(typ, Some(FrameSlice::new_borrowed(&buf[5..]))));
             match &*back {
                 Ok(b) => assert!(same(b, &v), "decode(encode(v)) == v"),
@@ -87,14 +107,14 @@ mod c01 {
             assert!(r.is_err(), "undocumented pair rejected");
             assert!(buf.len() == 1 && buf[0] == prefix, "no byte of a mismatched value is written");
             let tc = std::mem::ManuallyDrop::new(<T as DeserializeValue>::type_check(typ));
-            assert!(tc.is_err(), "reading into a mismatched type is refused");
+            assert!(tc.is_ok() == readable, "reading is accepted exactly for the documented column types");
         }
     }
 
     macro_rules! fixed_case {
         ($name:ident, $t:ty, $mk:expr, $img:expr, $w:expr, [$($acc:ident),*], $same:expr) => {
             #[kani::proof]
-            #[kani::unwind(13)]
+            #[kani::unwind(22)]
             #[kani::stub(std::rt::thread_cleanup, noop)]
             #[kani::stub(alloc::fmt::format, empty_string)]
             fn $name() {
@@ -116,42 +136,82 @@ mod c01 {
     fixed_case!(c01_time, CqlTime, |r: i64| CqlTime(r), |r: i64| r as u64, 8, [Time], |a: &CqlTime, b: &CqlTime| a.0 == b.0);
     fixed_case!(c01_timestamp, CqlTimestamp, |r: i64| CqlTimestamp(r), |r: i64| r as u64, 8, [Timestamp], |a: &CqlTimestamp, b: &CqlTimestamp| a.0 == b.0);
 
-    /// Option / MaybeUnset / Unset wrappers: None -> null cell be32(-1), Unset -> be32(-2), Some(v) -> v's cell
+    /// uuid::Uuid <-> Uuid only; CqlTimeuuid <-> Timeuuid only (documentation table): 16 raw bytes
     #[kani::proof]
-    #[kani::unwind(12)]
+    #[kani::unwind(22)]
     #[kani::stub(std::rt::thread_cleanup, noop)]
     #[kani::stub(alloc::fmt::format, empty_string)]
-    fn c01_option_and_unset() {
-        use std::mem::ManuallyDrop as MD;
-        let typ = MD::new(ColumnType::Native(NativeType::Int));
-        let typ: &ColumnType = &typ;
-        let x: i32 = kani::any();
-        let mut buf: Vec<u8> = Vec::new();
-        assert!(MD::new(Option::<i32>::None.serialize(typ, CellWriter::new(&mut buf))).is_ok());
-        assert!(buf == [0xff, 0xff, 0xff, 0xff], "null = [int] -1");
-        buf.clear();
-        assert!(MD::new(Unset.serialize(typ, CellWriter::new(&mut buf))).is_ok());
-        assert!(buf == [0xff, 0xff, 0xff, 0xfe], "not set = [int] -2");
-        buf.clear();
-        assert!(MD::new(MaybeUnset::<i32>::Unset.serialize(typ, CellWriter::new(&mut buf))).is_ok());
-        assert!(buf == [0xff, 0xff, 0xff, 0xfe]);
-        buf.clear();
-        assert!(MD::new(Some(x).serialize(typ, CellWriter::new(&mut buf))).is_ok());
-        let (cell, n) = spec_cell(x as u32 as u64, 4);
-        assert!(buf.len() == n && buf[..] == cell[..n]);
-        buf.clear();
-        assert!(MD::new(MaybeUnset::Set(x).serialize(typ, CellWriter::new(&mut buf))).is_ok());
-        assert!(buf.len() == n && buf[..] == cell[..n]);
-        // reading: null -> None, value -> Some
-        let r0 = MD::new(<Option<i32> as DeserializeValue>::deserialize(typ, None));
-        assert!(matches!(&*r0, Ok(None)));
-        let r1 = MD::new(<Option<i32> as DeserializeValue>::deserialize(typ, Some(FrameSlice::new_borrowed(&buf[4..]))));
-        assert!(matches!(&*r1, Ok(Some(y)) if *y == x));
-        // a mismatched Some(v) writes nothing
-        let wrong = MD::new(ColumnType::Native(NativeType::BigInt));
-        buf.clear();
-        assert!(MD::new(Some(x).serialize(&wrong, CellWriter::new(&mut buf))).is_err() && buf.is_empty());
+    fn c01_uuid() {
+        let raw: [u8; 16] = kani::any();
+        let v = uuid::Uuid::from_bytes(raw);
+        check_cell::<uuid::Uuid>(v, spec_cell_bytes(raw), &[NativeType::Uuid], &[NativeType::Uuid], |a, b| a.as_bytes() == b.as_bytes());
     }
+    #[kani::proof]
+    #[kani::unwind(22)]
+    #[kani::stub(std::rt::thread_cleanup, noop)]
+    #[kani::stub(alloc::fmt::format, empty_string)]
+    fn c01_timeuuid() {
+        let raw: [u8; 16] = kani::any();
+        let v = crate::value::CqlTimeuuid::from_bytes(raw);
+        check_cell::<crate::value::CqlTimeuuid>(v, spec_cell_bytes(raw), &[NativeType::Timeuuid], &[NativeType::Timeuuid], |a, b| a.as_bytes() == b.as_bytes());
+    }
+
+    /// Option / MaybeUnset / Unset wrappers: None -> null cell be32(-1), Unset -> be32(-2), Some(v) -> v's cell.
+    /// (one wrapper per harness: each serialize call drags the whole error machinery into the formula)
+    fn ser_into<T: SerializeValue>(v: &T, nt: NativeType) -> (Vec<u8>, bool) {
+        use std::mem::ManuallyDrop as MD;
+        let typ = MD::new(ColumnType::Native(nt));
+        let mut buf: Vec<u8> = Vec::new();
+        let ok = MD::new(v.serialize(&typ, CellWriter::new(&mut buf))).is_ok();
+        (buf, ok)
+    }
+    macro_rules! wrapper_case {
+        ($name:ident, $body:block) => {
+            #[kani::proof]
+            #[kani::unwind(12)]
+            #[kani::stub(std::rt::thread_cleanup, noop)]
+            #[kani::stub(alloc::fmt::format, empty_string)]
+            fn $name() $body
+        };
+    }
+    wrapper_case!(c01_option_none, {
+        let (buf, ok) = ser_into(&Option::<i32>::None, NativeType::Int);
+        assert!(ok && buf.len() == 4 && buf[0] == 0xff && buf[1] == 0xff && buf[2] == 0xff && buf[3] == 0xff, "null = [int] -1");
+    });
+    wrapper_case!(c01_unset, {
+        let (buf, ok) = ser_into(&Unset, NativeType::Int);
+        assert!(ok && buf.len() == 4 && buf[0] == 0xff && buf[1] == 0xff && buf[2] == 0xff && buf[3] == 0xfe, "not set = [int] -2");
+    });
+    wrapper_case!(c01_maybe_unset, {
+        let x: i32 = kani::any();
+        let v: MaybeUnset<i32> = if kani::any() { MaybeUnset::Set(x) } else { MaybeUnset::Unset };
+        let (buf, ok) = ser_into(&v, NativeType::Int);
+        assert!(ok);
+        match v {
+            MaybeUnset::Unset => assert!(buf.len() == 4 && buf[3] == 0xfe && buf[0] == 0xff),
+            MaybeUnset::Set(_) => {
+                let (cell, n) = spec_cell(x as u32 as u64, 4);
+                assert!(buf.len() == n && buf[..] == cell[..n]);
+            }
+        }
+    });
+    wrapper_case!(c01_option_some, {
+        use std::mem::ManuallyDrop as MD;
+        let x: i32 = kani::any();
+        let (buf, ok) = ser_into(&Some(x), NativeType::Int);
+        let (cell, n) = spec_cell(x as u32 as u64, 4);
+        assert!(ok && buf.len() == n && buf[..] == cell[..n], "Some(v) is v's cell");
+        let typ = MD::new(ColumnType::Native(NativeType::Int));
+        let r0 = MD::new(<Option<i32> as DeserializeValue>::deserialize(&typ, None));
+        assert!(matches!(&*r0, Ok(None)), "null reads back as None");
+        let r1 = MD::new(<Option<i32> as DeserializeValue>::deserialize(&typ, Some(FrameSlice::new_borrowed(&buf[4..]))));
+        assert!(matches!(&*r1, Ok(Some(y)) if *y == x));
+    });
+    wrapper_case!(c01_option_mismatch_writes_nothing, {
+        let x: i32 = kani::any();
+        let (buf, ok) = ser_into(&Some(x), NativeType::BigInt);
+        assert!(!ok && buf.is_empty(), "a mismatched Some(v) writes nothing");
+    });
 
     /// canary
     #[kani::proof]
